@@ -863,6 +863,22 @@ def m_ascii_case(ex, st, c):
     return Int(v.ty, z3.If(z3.And(z3.UGE(v.v, a), z3.ULE(v.v, b)), v.v + 32 if lowr else v.v - 32, v.v))
 
 
+@model(r'^core::num::<impl u8>::eq_ignore_ascii_case$', r'^char::methods::<impl char>::eq_ignore_ascii_case$')
+def m_u8_eq_ignore_ascii_case(ex, st, c):
+    # a.to_ascii_lowercase() == b.to_ascii_lowercase()  (std definition)
+    a = D(ex, st, c.args[0]); b = D(ex, st, c.args[1])
+
+    def low(v):
+        if v.conc: return v.v + 32 if 65 <= v.v <= 90 else v.v
+        return z3.If(z3.And(z3.UGE(v.v, 65), z3.ULE(v.v, 90)), v.v + 32, v.v)
+    la, lb = low(a), low(b)
+    if a.conc and b.conc: return la == lb
+    w = (a.v if not a.conc else b.v).size()
+    if a.conc: la = z3.BitVecVal(la, w)
+    if b.conc: lb = z3.BitVecVal(lb, w)
+    return la == lb
+
+
 @model(r'^char::methods::<impl char>::to_digit$')
 def m_to_digit(ex, st, c):
     v = D(ex, st, c.args[0]); radix = _conc_n(D(ex, st, c.args[1]), 'to_digit')
